@@ -59,7 +59,7 @@ def isValidDomain (s : Bytes) : Bool :=
     match splitOnce colon s with
     | some (host, port) =>
       if port.isEmpty then false
-      else if !parseU16Ok port then false
+      else if !port.all isDigit || !parseU16Ok port then false
       else (splitAll dot host).all labelOk
     | none => (splitAll dot s).all labelOk
 
@@ -67,16 +67,36 @@ def isValidDomain (s : Bytes) : Bool :=
 def stripSuffix (suf s : Bytes) : Option Bytes :=
   if suf.isSuffixOf s then some (s.take (s.length - suf.length)) else none
 
-/-- the free function `parse_host_header(base_domain, host)` -/
-def parseHostHeader (base host : Bytes) : Option VirtualHost :=
-  if host = base then some ⟨base, none⟩
-  else
-    match (stripSuffix base host).bind (stripSuffix [dot]) with
-    | some bucket => some ⟨base, some bucket⟩
-    | none => none
-
 def toAsciiLower (s : Bytes) : Bytes :=
   s.map fun c => if 65 ≤ c.toNat && c.toNat ≤ 90 then c + 32 else c
+
+/-- `str::eq_ignore_ascii_case`: same length and byte-wise equal after `to_ascii_lowercase`
+    (`map` keeps the length, so this is equality of the lower-cased texts) -/
+def eqIgnoreAsciiCase (a b : Bytes) : Bool := toAsciiLower a = toAsciiLower b
+
+/-- `str::is_char_boundary(idx)`: `0`, the length, or a byte that is not a UTF-8 continuation
+    byte (`(b as i8) >= -0x40`) -/
+def isCharBoundary (s : Bytes) (idx : Nat) : Bool :=
+  if idx = 0 then true
+  else match s.drop idx with
+    | [] => idx = s.length
+    | b :: _ => b.toNat < 128 || 192 ≤ b.toNat
+
+/-- `strip_suffix_ignore_ascii_case(s, suffix)` -/
+def stripSuffixIgnoreAsciiCase (s suffix : Bytes) : Option Bytes :=
+  if s.length < suffix.length then none            -- `checked_sub`
+  else
+    let idx := s.length - suffix.length
+    if !isCharBoundary s idx then none
+    else if eqIgnoreAsciiCase (s.drop idx) suffix then some (s.take idx) else none
+
+/-- the free function `parse_host_header(base_domain, host)` -/
+def parseHostHeader (base host : Bytes) : Option VirtualHost :=
+  if eqIgnoreAsciiCase host base then some ⟨base, none⟩
+  else
+    match (stripSuffixIgnoreAsciiCase host base).bind (stripSuffix [dot]) with
+    | some bucket => some ⟨base, some bucket⟩
+    | none => none
 
 /-- `SingleDomain::new` -/
 def singleNew (base : Bytes) : Except DomainError Bytes :=
